@@ -99,7 +99,7 @@ func vpC06SortedSigsKeep(sm map[uint16]*crypto.Signature, n int) map[uint16]*cry
 func TestVP_C06_mutations(t *testing.T) {
 	c := kit.New(t, "C06", "rapid: 1..3 byte-level mutations (bit flip, byte insert, byte delete, 16-bit length/count field bumped) of the encoding of a small generated transaction, plus every truncation and 1..4-byte extension; whatever the decoder accepts must re-encode to exactly the input; non-trivial = accepted mutated encoding; distinct by byte-string hash")
 	c.Require("mutated-accepted", "mutated-rejected", "truncation", "extension")
-	kit.SetChecks(kit.N(2500, 150000))
+	kit.SetChecks(kit.N(2500, 100000))
 	rapid.Check(t, func(t *rapid.T) {
 		tx := vpC06GenSmall(t)
 		base := vpC06RoundTrip(t, tx)
@@ -161,8 +161,9 @@ func TestVP_C06_every_offset(t *testing.T) {
 	c.Exhaustive("all single-bit flips, single-byte deletions and duplications of 50 small transaction encodings (<= 700 bytes)")
 	gen := rapid.Custom(vpC06GenSmall)
 	done := 0
+	shard, _ := kit.Shard() // each thorough shard sweeps its own 50 bases
 	for i := 0; done < 50 && i < 2000; i++ {
-		tx := gen.Example(7000 + i)
+		tx := gen.Example(7000 + shard*2000 + i)
 		base := vpC06RoundTrip(t, tx)
 		if len(base) > 700 || len(base) < 60 {
 			continue
